@@ -8,6 +8,10 @@ import FFVerif.Model.Analytic
 import FFVerif.Model.Diag
 import FFVerif.Model.Tensor
 import FFVerif.Model.SecondOrder
+import FFVerif.Model.Gradient
+import FFVerif.Model.Pulse
+import FFVerif.Model.Concat
+import FFVerif.Model.Basis
 
 namespace FFVerif.Model
 open FFVerif FFVerif.Proto
@@ -34,6 +38,22 @@ def handleMore (toks : List String) : String :=
     let d := d.toNat!; let N := N.toNat!
     let r := liouvilleToChoi (matC (parseFloats S) 0 N N) (ten3C (parseFloats C) 0 N d d)
     "ok " ++ showFloats (flatC2 r)
+  | ["fromatomic", mode, nP, nA, N, nO, tphases, Bat, Ltot] =>
+    -- concatenate: phases = cumprod of the pulses' total phases, L = cumulative Liouville
+    -- propagators, then calculate_control_matrix_from_atomic (mode total|correlations|pcff)
+    let nP := nP.toNat!; let nA := nA.toNat!; let N := N.toNat!; let nO := nO.toNat!
+    let tp : Mat CF nP nO := matC (parseFloats tphases) 0 nP nO
+    let bat : Vector (Ten3 CF nA N nO) nP := Vector.ofFn fun g =>
+      ten3C (parseFloats Bat) (g.1 * nA * N * nO) nA N nO
+    let lt : Vector (Mat CF N N) nP := ten3C (parseFloats Ltot) 0 nP N N
+    let ph := concatPhases tp
+    let l := concatL lt
+    if mode == "total" then "ok " ++ showFloats (flatC3 (controlMatrixFromAtomic ph bat l))
+    else if mode == "correlations" then
+      "ok " ++ showFloats (flatC4 (controlMatrixFromAtomicCorr ph bat l))
+    else
+      let c := controlMatrixFromAtomicCorr ph bat l
+      "ok " ++ showFloats (flatC5 (pulseCorrelationFFFid c))
   | ["analytic", fam, n, z] =>
     let n := n.toNat!; let z := f0 z
     let v : Float :=
@@ -43,7 +63,7 @@ def handleMore (toks : List String) : String :=
     "ok " ++ showFloats #[v]
   | toks =>
     -- components that live in their own model files
-    let handlers : List (List String → Option String) := [handleDiag, Tensor.handleTensor, handleSecondOrder]
+    let handlers : List (List String → Option String) := [handleDiag, Tensor.handleTensor, handleSecondOrder, handleGradient, Pulse.handlePulse, handleBasis]
     match handlers.findSome? (fun h => h toks) with
     | some r => r
     | none => "err bad-op"
